@@ -104,7 +104,7 @@ def power_csv(path, asm_list, length=1.0, n_cells=2, shape=(1.0, 0.5), scale=100
 
 def write_problem(wd, asms=None, positions=None, gap_model='flow', length=1.0, total_power=None, n_cells=2,
                   setup_extra='', units=None, timepoints=1, components=('pins', 'duct', 'cool'), flow=None,
-                  scaling=1.0, assembly_pitch=None):
+                  scaling=1.0, assembly_pitch=None, coolant='sodium_fixed'):
     """asms: dict name -> kwargs of asm_block; positions: list of (name, ring, pos, flowrate)"""
     os.makedirs(wd, exist_ok=True)
     asms = asms or {'a1': {}}
@@ -164,7 +164,7 @@ def write_problem(wd, asms=None, positions=None, gap_model='flow', length=1.0, t
     txt += f"""
 [Core]
     coolant_inlet_temp = 623.15
-    coolant_material   = sodium_fixed
+    coolant_material   = {coolant}
     length             = {length}
     assembly_pitch     = {round(pitch, 9)}
     gap_model          = {gap_model}
